@@ -777,9 +777,9 @@ func vpSigBase(p c9VProg, vj *c9VPJob) (string, bool) {
 }
 
 func c09VProg(o Opts, rng *Rng, res *Result) error {
-	njobs, nprogs, nwf, nfixed := 40, 6, 14, 8
+	njobs, nprogs, nwf, nfixed := 30, 6, 12, 8
 	if o.Tier == "thorough" {
-		njobs, nprogs, nwf, nfixed = 900, 10, 24, 60
+		njobs, nprogs, nwf, nfixed = 500, 10, 24, 40
 	}
 	if s := os.Getenv("C09_VPROG_JOBS"); s != "" {
 		fmt.Sscan(s, &njobs)
@@ -795,7 +795,7 @@ func c09VProg(o Opts, rng *Rng, res *Result) error {
 		if i < nfixed {
 			j.Progs = append(j.Progs, fixedVProgs...)
 		}
-		if i < nfixed || i%4 == 0 {
+		if i < nfixed || i%5 == 0 {
 			j.Progs = append(j.Progs, fixedScopePrograms("arr", false)...)
 			j.Progs = append(j.Progs, fixedScopePrograms("sa", true)...)
 		}
@@ -834,8 +834,14 @@ func c09VProg(o Opts, rng *Rng, res *Result) error {
 		if json.Unmarshal(outs[i].Data, &r) != nil || !strings.HasPrefix(r.VecErr, "HANG") {
 			continue
 		}
-		// at most a few isolated re-runs: many hangs at once are not load
-		if rechecks++; rechecks > 4 || os.Getenv("C09_NORECHECK") != "" {
+		// classes in which hangs are a known finding are not re-run; of the
+		// others at most a few (many hangs at once are not load)
+		vjx := jobs[outs[i].Job].VP
+		trig := strings.Join(vpTriggers(vjx.Progs[r.P], vjx.Input), "+")
+		if vjx.Class == "missing" || vjx.Class == "mixed" || strings.Contains(trig, "fork") || strings.Contains(trig, "scope-sort") {
+			continue
+		}
+		if rechecks++; rechecks > 3 || os.Getenv("C09_NORECHECK") != "" {
 			continue
 		}
 		vj := jobs[outs[i].Job].VP
